@@ -148,3 +148,43 @@ def flow_behaviours(workdir, maxlen, maxops=2, maxcmt=2, maxw=30, unit=2, gen=Tr
             j["id"] = "beh:flow:%s" % hashlib.sha256(j["text"].encode()).hexdigest()[:12]
             behs.append(j)
     return r, behs
+
+
+MATHARGS_CFG = ("SPECIFICATION Spec\nCONSTANTS MaxLen = %d\n MaxArgs = 3\n MaxCmt = %d\n MaxW = %d\n Unit = %d\n GenOn = %s\n"
+                "INVARIANTS %s\nCHECK_DEADLOCK FALSE\n")
+MATHARGS_INVS = "InvTermination InvConservation InvHygiene InvLineFeedsKept"
+MATHDELIM_CFG = ("SPECIFICATION Spec\nCONSTANTS MaxLen = %d\n MaxCmt = %d\n MaxW = %d\n Unit = %d\n GenOn = %s\n Block = %s\n"
+                 "INVARIANTS %s\nCHECK_DEADLOCK FALSE\n")
+MATHDELIM_INVS = "InvTermination InvConservation InvHygiene"          # InvLineFeedsKept fails for inline equations: G07
+
+
+def _flow_text(seq):
+    return "".join(ev["txt"] if "txt" in ev else concretise_events([ev]) for ev in seq)
+
+
+def mathargs_behaviours(workdir, maxlen, maxcmt=2, maxw=24, unit=2, gen=True, workers=8, timeout=1500):
+    cfg = MATHARGS_CFG % (maxlen, maxcmt, maxw, unit, "TRUE" if gen else "FALSE", MATHARGS_INVS + (" Gen" if gen else ""))
+    r = C.model_check("MathArgsMC", cfg, workdir, workers=workers, xmx="8g", timeout=timeout)
+    behs = []
+    if gen:
+        for g in C.parse_tlc_tuple_lines(r["out"], "GEN"):
+            j = json.loads(C.unquote_tla_string(g))
+            j["text"] = "$ vec(" + _flow_text(j["seq"]) + ") $\n"
+            j["id"] = "beh:mathargs:%s" % hashlib.sha256(j["text"].encode()).hexdigest()[:12]
+            behs.append(j)
+    return r, behs
+
+
+def mathdelim_behaviours(workdir, maxlen, block, maxcmt=2, maxw=24, unit=2, gen=True, workers=8, timeout=1500):
+    cfg = MATHDELIM_CFG % (maxlen, maxcmt, maxw, unit, "TRUE" if gen else "FALSE", "TRUE" if block else "FALSE",
+                           MATHDELIM_INVS + (" Gen" if gen else ""))
+    r = C.model_check("MathDelimMC", cfg, workdir, workers=workers, xmx="8g", timeout=timeout)
+    behs = []
+    if gen:
+        for g in C.parse_tlc_tuple_lines(r["out"], "GEN"):
+            j = json.loads(C.unquote_tla_string(g))
+            inner = "(" + _flow_text(j["seq"]) + ")"
+            j["text"] = ("$ " + inner + " $\n") if block else ("$" + inner + "$\n")
+            j["id"] = "beh:mathdelim:%s" % hashlib.sha256(j["text"].encode()).hexdigest()[:12]
+            behs.append(j)
+    return r, behs
